@@ -616,13 +616,12 @@ class Contour(BaseObject):
         if insert:
             firstPointIndex = self._points.index(firstPoint)
             lastPointIndex = self._points.index(lastPoint)
-            firstPoints = self._points[:firstPointIndex + 1]
-            if firstPointIndex == len(self._points) - 1:
-                firstPoints = firstPoints[lastPointIndex:]
-                lastPoints = []
-            elif lastPointIndex == 0:
+            if firstPointIndex >= lastPointIndex:
+                # the segment wraps around the end of the point list
+                firstPoints = self._points[lastPointIndex:firstPointIndex + 1]
                 lastPoints = []
             else:
+                firstPoints = self._points[:firstPointIndex + 1]
                 lastPoints = self._points[lastPointIndex:]
             newPoints = [self._pointClass(pos, segmentType=segmentType, smooth=smooth) for pos, segmentType, smooth in pointsToInsert]
             # free the identifiers of the off curve points that are replaced
